@@ -63,5 +63,7 @@ OracleFaultMonotone == phase = "case" =>
   IN Len(e.calls) <= Len(f.calls)
 \* per-occurrence evaluation with deep merge (what ggql does) yields the data of the
 \* declaratively merged selection set (what GraphQL prescribes)
-OracleMergeEquiv == phase = "case" => Exp({}).data = Exp({"DeclarativeMerge"}).data
+\* (not for the family that fails the n-th invocation of one resolver: the declarative reading makes one invocation per
+\* response key, so there is no second one to fail)
+OracleMergeEquiv == phase = "case" /\ cs.fam # "faultcall" => Exp({}).data = Exp({"DeclarativeMerge"}).data
 =============================================================================
